@@ -483,6 +483,17 @@ def run(ctx, out, tier):
     shared.sh_merge(ctx, out, ctx.reachable_bodies())
     from rules.C03 import check_blank
     check_blank(ctx, out)
+    # the validator only runs if the lazy detection loop creates it: every pending detector is asked
+    # about every block (shared with C11/C13/C14)
+    from rules.C14 import check_once as _detect_once, detect_fn as _detect_fn
+    _dv = _detect_fn(ctx)
+    if _dv is not None:
+        _detect_once(ctx, out, _dv, rule="C06.detect")
+    else:
+        out.inst("C06.detect", 0, 4)
+    from rules.C10 import check_line_base
+    check_line_base(ctx, out, "keep-sorted", "C06.line")
+    shared.sh_flags(ctx, out, "keep-sorted", "C06.flags")
     return meta()
 
 
